@@ -22,6 +22,9 @@ class Unsupported(Exception):
     pass
 
 
+LOG = ("log",)     # pseudo-location holding the ordered effect-only calls of a path (effects mode)
+
+
 INT_WIDTH = {"u8": 8, "u16": 16, "u32": 32, "u64": 64, "u128": 128, "usize": 64, "i8": 8, "i16": 16, "i32": 32, "i64": 64, "i128": 128, "isize": 64, "bool": 1}
 
 
@@ -282,6 +285,8 @@ class Extractor:
             ret = env.get(0, ("unit",))
             if self.effects and depth == 0:
                 changed = tuple((p, env[i + 1]) for i, p in enumerate(self._params) if env.get(i + 1) != p)
+                if env.get(LOG):
+                    changed += ((LOG, env[LOG]),)
                 if changed:
                     return ("state", ret, changed)
             return ret
@@ -357,6 +362,11 @@ class Extractor:
             d = F.call_dest(t)
             if d[1]:
                 raise Unsupported("call result into projected place in %s" % body.key)
+            if self.effects and res[0] == "call":
+                rty = body.local_tystr(d[0])
+                if rty in ("()", "!") or "JoinHandle" in rty:
+                    # a call made for its effect only: keep it, in order, in the path's effect log
+                    env[LOG] = env.get(LOG, ()) + (res,)
             env[d[0]] = res
             if t[4] is None:
                 return ("never",)
@@ -567,7 +577,7 @@ def term_str(t, depth=0):
         r, fs = with_fields(t)
         return "%s{%s}" % (term_str(r), ", ".join("%s: %s" % (n, term_str(v)) for n, v in fs.items()))
     if k == "state":
-        return "%s; %s" % (term_str(t[1]), "; ".join("%s := %s" % (term_str(p), term_str(v)) for p, v in t[2]))
+        return "%s; %s" % (term_str(t[1]), "; ".join(("effects [%s]" % ", ".join(term_str(c) for c in v)) if p == LOG else "%s := %s" % (term_str(p), term_str(v)) for p, v in t[2]))
     if k == "agg":
         return "%s{%s}" % (t[1].rsplit("::", 2)[-1] if "::" in t[1] else t[1], ", ".join(term_str(x) for x in t[2]))
     if k == "pair":
